@@ -58,6 +58,8 @@ type Options struct {
 	// about notifications and shutdown do not care about.
 	Prestore  bool
 	KeyOffset int
+	// AllowPeer, when set, is the receiver's allow filter (default: allow all).
+	AllowPeer func(peer.ID) bool
 	// Pubsub: the subscriber is created with a libp2p host (no transports) and
 	// its announce receiver listens on a real gossipsub topic of that host
 	// (World.Topic), so that announcements can arrive through the receiver's
@@ -77,6 +79,10 @@ func New(e *sched.Exec, o Options) *World {
 		w.Chains = append(w.Chains, ch)
 	}
 	opts := o.SubOpts
+	allow := o.AllowPeer
+	if allow == nil {
+		allow = func(peer.ID) bool { return true }
+	}
 	if o.Pubsub {
 		self := fixture.Key("ed25519", 90+o.KeyOffset)
 		h, err := libp2p.New(libp2p.NoListenAddrs, libp2p.Identity(self.Priv))
@@ -101,9 +107,9 @@ func New(e *sched.Exec, o Options) *World {
 			// when they wake: let virtual time pass
 			time.Sleep(30 * time.Minute)
 		}
-		opts = append(opts, dagsync.RecvAnnounce("", announce.WithTopic(topic), announce.WithAllowPeer(func(peer.ID) bool { return true })))
+		opts = append(opts, dagsync.RecvAnnounce("", announce.WithTopic(topic), announce.WithAllowPeer(allow)))
 	} else if o.Announce {
-		opts = append(opts, dagsync.RecvAnnounce("", announce.WithAllowPeer(func(peer.ID) bool { return true })))
+		opts = append(opts, dagsync.RecvAnnounce("", announce.WithAllowPeer(allow)))
 	}
 	w.NewSubscriber(opts...)
 	if !o.NoWarmup {
